@@ -121,7 +121,12 @@ def run(ctx):
     seed = str(ctx.seed)
     rows = vc.hrows(["-mode", "values", "-seed", seed, "-n", "30000" if thorough else "800"])
     rows += vc.hrows(["-mode", "graph", "-seed", seed, "-n", "1500" if thorough else "30"])
-    bad, dom, ill = vc.model_eval(ctx, "cases_c05", rows)
+    qi = {}
+    bad, dom, ill = vc.model_eval(ctx, "cases_c05", rows, quote_instance=qi)
+    if qi.get("mismatches", 0) > 0:
+        ctx.violation({"kind": "gallina-quote-instance-vs-go", "count": qi["mismatches"],
+                       "explain": "Instance.quote_g / unquote_g (the Gallina instance whose laws are proved) disagrees with strconv.Quote on ASCII input"})
+    ctx.cov["quote_instance_vs_go"] = qi
     for i in bad[:5]:
         ctx.violation({"kind": "model-vs-implementation", "case": vc.strip(rows[i]),
                        "explain": "String()/Parse()/WriteGraph/ReadIntoGraph of the Go code and the Gallina model (evaluated in Coq) disagree"})
